@@ -98,3 +98,5 @@ func strsToBytes(l []string) [][]byte {
 	}
 	return r
 }
+
+func timeAfter(seconds int) <-chan time.Time { return time.After(time.Duration(seconds) * time.Second) }
